@@ -5,5 +5,9 @@ def run(tier, seed):
     rc, js = vlib.tlc("JacobianSanity", timeout=900)
     if rc != 0 or js.count("JSANITY") != 8 or "FALSE" in js or js.count("TRUE") != 120:
         raise vlib.ModelError("JacobianSanity failed:\n" + js[-2000:])
-    return numeric.run("C05", tier, seed, lambda e, i: i.startswith("J") or i == "finite",
-        "cells = Strata.tla PlanOf(C05): every Jacobian-returning operation x group x rotation cell x linear cell x hemisphere, second operand cells cycled, all Jacobians requested; distinct = (event, group, scalar, theta/lin bucket)")
+    def bundles(rep):
+        # bundles: the Jacobian-returning operations of the covering bundle layouts (BundleLayout.tla) against the
+        # block-diagonal model, in strata where the element groups have no recorded finding; off-block entries exact zeros
+        from . import c11
+        return c11.collect(rep, "quick", seed, prop="C05", ops={"compose", "inverse", "between", "rplus", "lplus", "rminus", "lminus", "log", "exp", "act"})
+    return numeric.run("C05", tier, seed, lambda e, i: i.startswith("J") or i in ("finite", "offblock_zero"), extra_results=bundles, rule="cells = Strata.tla PlanOf(C05): every Jacobian-returning operation x group x rotation cell x linear cell x hemisphere, second operand cells cycled, all Jacobians requested; distinct = (event, group, scalar, theta/lin bucket)")
